@@ -4,6 +4,7 @@ D=$(cd "$1" && pwd); shift
 cd /verif
 if ! git -C /repo apply --check $D/patch.diff; then echo "patch does not apply"; exit 2; fi
 git -C /repo apply $D/patch.diff
+rm -rf /tmp/verif_evidence_keep && cp -r /verif/evidence /tmp/verif_evidence_keep   # evidence must come from clean-tree runs
 for id in "$@"; do
   out=$(bin/check $id 2>&1 | grep -E "VIOLATION|KNOWN|OK|FAILED" | head -4)
   echo "[$id] $out" | cut -c1-400
@@ -11,4 +12,5 @@ for id in "$@"; do
   if [ -n "$f" ]; then python3 -c "import json;d=json.load(open('$f'));print('      ->', d.get('kind'), d.get('what','')[:300])"; fi
 done
 git -C /repo checkout -- .
+rm -rf /verif/evidence && mv /tmp/verif_evidence_keep /verif/evidence
 git -C /repo status --short | head -3
